@@ -14,6 +14,9 @@ RULE = ("call sequences up to length 40 over new / parse_formula / copy / get / 
         "out-pointer, and mass + get on six probe keys of EVERY live handle are compared with the model built from the "
         "Rust-API models; all handles freed at the end; class = (set of functions called, error codes seen, length bucket)")
 MODULES = ["Props.C17"]
+# arguments longer than any plausible fixed buffer (4096, 8192, 65536): their meaning must not depend on their length
+LONG_FORMULA = [b"C" * 5000, b"C" * 4095 + b"He", b"(" + b"CH" * 2100 + b")2", b"C" * 8191 + b"Cl2"]
+LONG_SPEC = [b"C[" + b"0" * 4200 + b"13]", b"C" + b"l" * 0 + b"[" + b"0" * 8190 + b"12]", b"C" * 4097]
 GOOD_FORMULA = [b"H2O", b"C6H12O6", b"C[13]2H5(OH)2", b"(CH2)3Cl[37]", b"Fe2O3", b"H+", b"C", b"NaCl", b"C2H6S1"]
 BAD_FORMULA = [b"", b"H)", b"Xx", b"C[14]", b"(", b"h2o", b"C[13", b"\xff\xfe", b"C\xc3", b"H2O\xe4\xb8\xad", b"()", b"C[]2", b" H", b"C2147483648"]
 GOOD_SPEC = [b"C", b"H", b"O", b"C[13]", b"Cl", b"Fe", b"Cl[37]", b"Fe[54]", b"e*", b"Uuh"]
@@ -28,6 +31,8 @@ def gen_sequences(r: Run):
     rng = random.Random(r.seed)
     n = 20000 if r.tier == "thorough" else 1500
     seqs = [
+        ["parse " + hx(LONG_FORMULA[0]), "mass 0", "parse " + hx(LONG_FORMULA[1]), "get 1 " + hx(b"He"), "get 1 " + hx(b"H"), "parse " + hx(LONG_FORMULA[2]),
+         "new", "set 3 " + hx(LONG_SPEC[0]) + " 5", "get 3 " + hx(b"C[13]"), "get 3 " + hx(LONG_SPEC[0]), "inc 3 " + hx(LONG_SPEC[2]) + " 1"],
         ["new", "parse 4829", "set 0 435b785d 1", "get 0 c3a9", "free 0"],
         ["parse " + hx(b"H2O"), "copy 0", "add 1 0", "mass 1", "sub 1 0", "scale 1 -3", "inc 1 " + hx(b"C[13]") + " 2", "get 1 " + hx(b"C[13]"), "free 0", "mass 1"],
     ]
@@ -41,6 +46,8 @@ def gen_sequences(r: Run):
                 ops.append("new"); live.append(nxt); bound[nxt] = 0; nxt += 1
             elif kind == "parse":
                 b = rng.choice(GOOD_FORMULA if rng.random() < 0.6 else BAD_FORMULA)
+                if rng.random() < 0.04:
+                    b = rng.choice(LONG_FORMULA)
                 ops.append("parse " + hx(b))
                 # a successful parse creates a handle; we do not know here — the model tells; track optimistically below
                 ops[-1] = ("P", b)
@@ -51,10 +58,12 @@ def gen_sequences(r: Run):
                 if kind == "copy":
                     ops.append(f"copy {h}"); live.append(nxt); bound[nxt] = bound[h]; nxt += 1
                 elif kind == "get":
-                    ops.append(f"get {h} " + hx(rng.choice(GOOD_SPEC + BAD_SPEC)))
+                    ops.append(f"get {h} " + hx(rng.choice(GOOD_SPEC + BAD_SPEC + (LONG_SPEC if rng.random() < 0.1 else []))))
                 elif kind in ("set", "inc"):
                     v = rng.randint(-50, 50)
                     b = rng.choice(GOOD_SPEC if rng.random() < 0.7 else BAD_SPEC)
+                    if rng.random() < 0.03:
+                        b = rng.choice(LONG_SPEC)
                     ops.append(f"{kind} {h} {hx(b)} {v}"); bound[h] = bound[h] + abs(v)
                 elif kind in ("add", "sub"):
                     g = rng.choice(live)
@@ -73,8 +82,8 @@ def gen_sequences(r: Run):
             if ops and isinstance(ops[-1], tuple):
                 b = ops[-1][1]
                 ops[-1] = "parse " + hx(b)
-                if b in GOOD_FORMULA:
-                    live.append(nxt); bound[nxt] = 2000; nxt += 1
+                if b in GOOD_FORMULA or b in LONG_FORMULA:
+                    live.append(nxt); bound[nxt] = 200000; nxt += 1
         if ops:
             seqs.append(ops)
     return seqs
